@@ -245,9 +245,10 @@ def run_seq(ck, bench_seed, ops, coq_in, label):
             if existed and before[:-2] != after[:-2] and not (op[0] == "CreateFile" and op[3]):
                 ck.violation("fs-create-existing-changed-state", "%s on an existing item changed the file system" % (op,), dict(ctx, at=i))
         m = coq_op(op)
-        if op[0] == "Tick" and getattr(b, "_was_off", False):
-            m = Raw("TickOff")            # the tick began while the node was not ON: nothing in the file system progresses
-        b._was_off = b.node.operating_state.name != "ON"
+        if op[0] == "Tick" and b.node.operating_state.name != "ON":
+            # the node is not ON once its own boot / shut-down countdown of this tick has run: the per-tick counters were reset at
+            # the start of the tick, nothing timed in the file system progresses (a tick in which the node comes ON is an ordinary one)
+            m = Raw("TickOff")
         if m is not None:
             mops.append(m)
             out += [ST.get(getattr(resp, "status", "success"), 9) if resp is not None else 1] + after
